@@ -42,6 +42,7 @@ type Ctx struct {
 	ifaceCache map[string]*types.Interface
 	wireTaint  map[ssa.Value]bool // values derived from a received heads list (set by T1)
 	lockMemo   *lockMemo
+	replMemo   *replImpl
 	allFnsMemo map[*ssa.Function]bool
 }
 
